@@ -216,6 +216,10 @@ def mutants(sp, doc):
                     out.append(("struct:add-vocabulary-key", path + [vk], _set(doc, path + [vk], 1)))
             for j in (3.5, "abc", [], None, 0, ""):
                 out.append(("struct:fragment-retype", path, _set(doc, path, j)))
+            if isinstance(cur, dict) and "name" not in cur and info != "Bag" or (isinstance(cur, dict) and "name" not in cur):
+                # the optional name, added with a wrong type (whatever name the parent announces for its children)
+                for j in (5, [], {}, False, 2.5):
+                    out.append(("name:added-wrong-type", path + ["name"], _set(doc, path + ["name"], j)))
             out.append(("entries:-1", path + ["entries"], _set(doc, path + ["entries"], -1)))
             for j, nm in ((-0.5, "negative-float"), (-1e-300, "negative-tiny"), ("-inf", "minus-infinity-spelled")):
                 out.append(("entries:" + nm, path + ["entries"], _set(doc, path + ["entries"], j)))
